@@ -332,6 +332,56 @@ fn mutate(family: &str, rng: &mut Rng, case: u64, s: &mut StreamSpec) -> String 
                 }
             }
         }
+        "h2_cl_data" if rng.chance(3, 5) => {
+            // content-length against what the stream really carries: every way a stream can end
+            // x {DATA shorter, longer, absent, equal} x every method class
+            const METHODS: &[(&str, &str)] = &[("GET", "get"), ("HEAD", "head"), ("POST", "post"), ("OPTIONS", "options"), ("CONNECT", "connect"), ("PURGE", "custom")];
+            let (method, mclass) = *rng.pick(METHODS);
+            set(&mut s.headers, ":method", method.as_bytes());
+            if method == "CONNECT" {
+                // RFC 9113 8.5: CONNECT carries :authority only
+                del(&mut s.headers, ":scheme");
+                del(&mut s.headers, ":path");
+                set(&mut s.headers, ":authority", format!("{HOST}:443").as_bytes());
+            }
+            s.trailers = None;
+            del(&mut s.headers, "content-length");
+            let end = *rng.pick(&["on_headers", "on_data", "on_empty_data", "on_trailers"]);
+            let relation = if end == "on_headers" { *rng.pick(&["zero_data", "zero_data", "equal"]) } else { *rng.pick(&["short", "long", "zero_data", "equal"]) };
+            let n = rng.urange(1, 60);
+            let body = keystream(case ^ 0x77, 0, n);
+            let (declared, sent): (usize, Vec<u8>) = match (relation, end) {
+                ("equal", "on_headers") => (0, vec![]),
+                ("equal", _) => (n, body.clone()),
+                ("short", _) => (n + rng.urange(1, 30), body.clone()),
+                ("long", _) => (n - rng.urange(1, n), body.clone()),
+                _ => (n, vec![]), // zero_data: a positive content-length and no DATA octet
+            };
+            s.headers.push(f("content-length", &declared.to_string()));
+            s.data = match end {
+                "on_headers" => vec![],
+                "on_empty_data" => {
+                    if sent.is_empty() {
+                        vec![vec![]]
+                    } else {
+                        vec![sent, vec![]]
+                    }
+                }
+                "on_trailers" => {
+                    if sent.is_empty() {
+                        vec![]
+                    } else {
+                        vec![sent]
+                    }
+                }
+                _ => vec![sent],
+            };
+            if end == "on_trailers" {
+                s.trailers = Some(vec![f("x-trailer", "t1")]);
+            }
+            s.valid = relation == "equal" && method != "CONNECT";
+            format!("cl_vs_data/{mclass}/{relation}/{end}")
+        }
         "h2_cl_data" => {
             set(&mut s.headers, ":method", b"POST");
             s.trailers = None;
@@ -456,6 +506,9 @@ pub struct H2Exchange {
     pub settled: bool,
     pub late_conns: usize,
     pub trace: Vec<String>,
+    /// backend connection -> (bytes received, closed by sozu) once every stream had been sent and
+    /// had been quiet for the whole quiet period, before the client connection is dropped
+    pub mid: BTreeMap<usize, (usize, bool)>,
 }
 
 fn hget<'a>(h: &'a HeaderList, name: &str) -> Option<&'a [u8]> {
@@ -478,6 +531,7 @@ fn exec(cell: &Cell, input: &H2Case, t: &Timing, nonce: u64) -> H2Exchange {
         settled: false,
         late_conns: 0,
         trace: vec![],
+        mid: BTreeMap::new(),
     };
     let tcp = match peers::connect(cell.front_tls, None, &IoProgram::fast(), Duration::from_secs(2)) {
         Ok(s) => s,
@@ -606,6 +660,10 @@ fn exec(cell: &Cell, input: &H2Case, t: &Timing, nonce: u64) -> H2Exchange {
         pump(&mut c, &mut ex, &by_sid, &all, t.quiet, t.hard, &mut dead);
     }
     ex.trace = c.trace_tail(24);
+    for (idx, rec) in cell.state.snapshot() {
+        let r = rec.lock().unwrap_or_else(|e| e.into_inner());
+        ex.mid.insert(idx, (r.bytes.len(), r.eof));
+    }
 
     let (vic, vt, vr) = super::run_victim(cell, input.case, nonce, t);
     ex.vic = vic;
@@ -849,6 +907,40 @@ fn judge(input: &H2Case, ex: &H2Exchange, rep: &mut Report, count: bool) -> (Vec
                 }
             }
         }
+        // ---- a request of a stream the client has ended (END_STREAM sent) that sozu neither reset
+        // nor cut at the backend must be complete there: if sozu keeps the backend connection open
+        // on a message shorter than it declares, the backend reads whatever comes next on that
+        // connection as the rest of the body (RFC 9112 6.3 - a request's length never depends on
+        // the method, so this includes HEAD with a non-zero Content-Length)
+        if let Some((len, false)) = ex.mid.get(&c.idx).copied() {
+            let seen = &c.bytes[..len.min(c.bytes.len())];
+            let st = read_stream(seen, Mode::Strict);
+            let head_start = seen.windows(11).rposition(|w| w == b" HTTP/1.1\r\n").map(|p| seen[..p].iter().rposition(|b| *b == b'\n').map(|q| q + 1).unwrap_or(0));
+            if let (StreamEnd::Incomplete { what, .. }, Some(hs)) = (&st.end, head_start) {
+                let head_complete = reader::memfind(&seen[hs..], b"\r\n\r\n").is_some();
+                let line_end = reader::memfind(&seen[hs..], b" HTTP/1.1\r\n").map(|p| hs + p).unwrap_or(hs);
+                let target = seen[hs..line_end].splitn(2, |b| *b == b' ').nth(1).unwrap_or(b"");
+                let owner = input.streams.iter().position(|s| hget(&s.headers, ":path").or(hget(&s.headers, ":authority")).is_some_and(|p| p == target));
+                if let (true, Some(i)) = (head_complete, owner) {
+                    let r = &ex.streams[i];
+                    let ended_by_client = r.sent && input.streams[i].end_stream;
+                    if count {
+                        rep.obs("h2/incomplete_backend_messages_examined", 1);
+                    }
+                    if ended_by_client && r.rst.is_none() && ex.goaway.is_none() && !ex.closed {
+                        let framing = if what.starts_with("body") { "content_length" } else { "chunked" };
+                        add(
+                            format!("smuggling/h2/request_left_incomplete_at_backend/{framing}"),
+                            format!("[{opsig}] stream {} was ended by the client and not reset by sozu, yet backend connection {} holds an unfinished message ({what}) and stays open: the backend takes the next bytes on this connection for the rest of this body", ex.sids.get(i).copied().unwrap_or(0), c.idx),
+                            false,
+                            json!({"conn": c.idx, "backend_bytes_when_streams_were_done": esc_limited(seen, 3000), "strict_end": format!("{:?}", st.end)}),
+                        );
+                    } else if count {
+                        rep.obs("h2/incomplete_backend_message_of_a_reset_stream", 1);
+                    }
+                }
+            }
+        }
         // answered but never relayed
         for a in &c.answered {
             if a.end_off > c.preexisting && !stream_of_seq.contains_key(&a.seq) && !vic_seq.contains(&a.seq) {
@@ -950,6 +1042,12 @@ fn run_one(ctx: &Ctx, cell: &mut Cell, input: &H2Case, rep: &mut Report, nonce: 
         return;
     }
     rep.obs(&format!("cases/{}", input.family), 1);
+    if let Some(rest) = input.op.strip_prefix("cl_vs_data/") {
+        let mut it = rest.split('/');
+        let (m, rel, end) = (it.next().unwrap_or(""), it.next().unwrap_or(""), it.next().unwrap_or(""));
+        rep.obs(&format!("h2/cl_vs_data/method/{m}"), 1);
+        rep.obs(&format!("h2/cl_vs_data/{rel}/{end}"), 1);
+    }
     rep.obs(if input.concurrent { "h2/streams_sent_concurrently" } else { "h2/streams_sent_one_by_one" }, 1);
     if input.headers_split.is_some() {
         rep.obs("h2/header_block_split_into_continuation_frames", 1);
